@@ -113,6 +113,22 @@ so the text generated for every other unit is untouched; prelude Model/SrcPrelud
   returns); the handler starts from the variables as they were at `try` -- a variable the body assigns is UNBOUND in the handler
   unless every statement of the body from its first assignment on cannot raise (`l.append(<name>)`, `x = <name or literal>`);
   break / continue inside are rejected.
+SRCB, netaddr/ip/nmap.py -> pysrc_nmap_gen.v (prelude Model/SrcPreludeNmap.v):
+* A Python set of ints is the duplicate-free list of its elements in insertion order (as for the splitter unit): `set()` = [],
+  `s.add(x)` = py_set_add Z.eqb, `sorted(s)` = py_sorted_asc (ascending insertion sort).
+* `def f(*xs)` with xs declared `list ..` takes the tuple of its arguments as one list parameter.
+* A GENERATOR function (its body contains `yield e` statements; `yield from`, yield as an expression, `return` are rejected) is the
+  list of the OUTCOMES of its yields in order (`yielded`; type `oaddr` = outcome of an IPAddress object): `yield e` appends the outcome
+  of e (Ok v, or the Raise of a failing e); `for x in g: yield x` appends all outcomes of g (g a generator call, or an IPNetwork:
+  py_iter_net, the hand model of IPListMixin.__iter__); the first Raise in the list is the exception that ends the generator
+  (Nmap.gen_of_outcomes reads the list that way).  Calling a generator function never raises: an exception of its body before the
+  first yield is the one-element list [Raise e] (py_gen_body).  Fail closed: no raising construct may follow a yield on any path,
+  and a loop that yields must be effect-free (otherwise the items yielded so far would be lost).  `_iter_next(g)` on a generator
+  made in that very expression = py_gen_next (its first outcome; StopIteration = Unsupported).
+* A loop variable that is mentioned after its loop but is dead there (FnB.read_first: always written before it is read again) is
+  renamed inside the loop (x -> x_for); `a, _ = <list>` ignores the second component.
+* The parsers reached with TEXT arguments are table SRCB_CTOR: for nmap.py IPAddress(text) and inet_pton(AF_INET6) inside
+  IPNetwork(text) are `Variable`s of a Section of the generated file (the same two platform parameters as Model/Nmap.v).
 """
 import ast
 import os
@@ -266,6 +282,10 @@ SRCB_UNITS = [
       (None, "iprange_to_globs._iprange_to_glob", {"lb": "addr", "ub": "addr"}),
       (None, "iprange_to_globs", {"start": "addr", "end": "addr"}),
       (None, "glob_to_cidrs", {"ipglob": "str"}), (None, "cidr_to_glob", {"cidr": "net"})]),
+    ("netaddr/ip/nmap.py", "pysrc_nmap_gen.v", "", " Base.PyStr Model.SrcPreludeStr Model.SrcPreludeGlob Model.SrcPreludeNmap",
+     [(None, "_nmap_octet_target_values", {"spec": "str"}), (None, "_generate_nmap_octet_ranges", {"nmap_target_spec": "str"}),
+      (None, "_parse_nmap_target_spec", {"target_spec": "str"}), (None, "valid_nmap_range", {"target_spec": "str"}),
+      (None, "iter_nmap_range", {"nmap_target_spec": "list str"})]),
 ]
 UNITS += SRCB_UNITS
 FILES = FILES + tuple(u[1] for u in SRCB_UNITS)
@@ -287,6 +307,20 @@ SRCB_RESERVED = set("split split1 join contains_char fmt_d chars str_of py_index
                     "py_ipaddress_of_str py_iprange_of_strs py_addr_str py_net_of_addr py_set_add map existsb forallb "
                     "length ascii code chr len strip lower append py_int".split())
 PURE_METHODS = PURE_METHODS + ("split", "join")      # s.split(c) / sep.join(l): new values, s and sep unchanged
+# the address parsers a unit reaches with TEXT arguments are not translated: (class, argument kinds) -> symbol.  For nmap.py
+# IPAddress(text) and the IPv6 half of IPNetwork(text) are the Section variables of Model/Nmap.v (platform functions, property C01):
+# the generated file declares the same two variables (UNIT_PREAMBLE / UNIT_POSTAMBLE) and its definitions take them as parameters
+SRCB_CTOR = {"pysrc_glob_gen.v": {("IPAddress", "str"): "py_ipaddress_of_str", ("IPRange", "str", "str"): "py_iprange_of_strs"},
+             "pysrc_nmap_gen.v": {("IPAddress", "str"): "ip_address", ("IPAddress", "str", "4"): "py_ipaddress4_of_str",
+                                  ("IPNetwork", "str"): "py_ipnetwork_of_str pton6"}}
+SRCB_CTOR_KIND = {"IPAddress": "addr", "IPRange": "rng", "IPNetwork": "net"}
+UNIT_PREAMBLE["pysrc_nmap_gen.v"] = (
+    "(* the platform parsers nmap.py reaches through IPAddress(text) / IPNetwork(text): parameters, as in Model/Nmap.v *)\n"
+    "Section WithPlatform.\nVariable pton6 : string -> option Z.\nVariable ip_address : string -> outcome (Z * Z).\n")
+UNIT_POSTAMBLE = {"pysrc_nmap_gen.v": "\nEnd WithPlatform.\n"}
+SRCB_VALUES = SRCB_VALUES + ("oaddr",)               # `oaddr` = what a generator of IPAddress objects yields: outcome (Z * Z)
+COQTY["oaddr"] = "(outcome (Z * Z))"
+SRCB_RESERVED |= set("pton6 ip_address py_ipaddress4_of_str py_ipnetwork_of_str py_iter_net py_gen_body py_gen_next yielded".split())
 
 
 class Untranslatable(Exception):
@@ -641,6 +675,7 @@ class Fn:
         self.statevars, self.mutating, self.valued = [], False, True
         if recv in STATEVARS:
             self.f = self.state_as_locals(self.f)
+        self.f = self.prepare(self.f, ptypes)             # (hook for subclasses: a rewritten copy of the function)
         a = self.f.args
         if a.vararg or a.kwarg or a.kwonlyargs or a.posonlyargs or (recv is not None and (not a.args or a.args[0].arg != "self")):
             bad(self.f, "unsupported signature")
@@ -692,6 +727,9 @@ class Fn:
             body = body[1:]
         self.ir = self.block(body, env, lambda e: self.leaf(e, "none", None), [])
         self.finish()
+
+    def prepare(self, f, ptypes):
+        return f
 
     # ---- object state read and written like locals (STATEVARS)
     def method_mutates(self, name, seen=()):
@@ -2009,8 +2047,79 @@ class FnB(Fn):
     """Fn plus the constructs of the text functions (see "SRCB" at the end of the module docstring); used for UNIT_FNCLASS units"""
 
     def __init__(self, tr, recv, name, ptypes):
-        self.nonempty, self.localfns, self.rangeloops = [], {}, {}
+        self.nonempty, self.localfns, self.rangeloops, self.renamed, self.isgen = [], {}, {}, {}, False
         Fn.__init__(self, tr, recv, name, ptypes)
+
+    def prepare(self, f, ptypes):
+        """a copy of f in which `*xs` with a declared list type is an ordinary last parameter (the tuple of the arguments), and
+        -- for a generator function -- the items are collected: `yielded = []` first, `return yielded` last; `yield e` is read by
+        expr_stmt, `for x in g: yield x` by loop"""
+        import copy
+        f = copy.deepcopy(f)
+        if f.args.vararg is not None and f.args.vararg.arg in ptypes and ptypes[f.args.vararg.arg].startswith("list ") and not f.args.kwonlyargs:
+            f.args.args.append(f.args.vararg)
+            f.args.vararg = None
+        inner = {id(n) for d in ast.walk(f) if isinstance(d, (ast.FunctionDef, ast.Lambda)) and d is not f for n in ast.walk(d)}
+        ys = [n for n in ast.walk(f) if isinstance(n, (ast.Yield, ast.YieldFrom)) and id(n) not in inner]
+        if ys:
+            stmts = {id(st.value) for st in ast.walk(f) if isinstance(st, ast.Expr)}
+            if any(isinstance(n, ast.YieldFrom) or id(n) not in stmts or n.value is None for n in ys) or any(
+                    (isinstance(n, ast.Return) and id(n) not in inner) or (isinstance(n, ast.Name) and n.id == "yielded") for n in ast.walk(f)):
+                bad(f, "generator with `yield from`, a yield used as an expression, a bare yield, a return, or a name `yielded`")
+            self.isgen = True
+            k = 1 if (f.body and isinstance(f.body[0], ast.Expr) and isinstance(f.body[0].value, ast.Constant)
+                      and isinstance(f.body[0].value.value, str)) else 0
+            init = ast.Assign(targets=[ast.Name(id="yielded", ctx=ast.Store())], value=ast.List(elts=[], ctx=ast.Load()))
+            ret = ast.Return(value=ast.Name(id="yielded", ctx=ast.Load()))
+            ast.copy_location(init, f.body[k])
+            ast.copy_location(ret, f.body[-1])
+            ret.lineno = ret.end_lineno = f.end_lineno
+            f.body = f.body[:k] + [init] + f.body[k:] + [ret]
+            for st in ast.walk(f):                    # `yield e` -> `yielded.append(__srcb_yield(e))`: an assignment of `yielded`
+                if isinstance(st, ast.Expr) and isinstance(st.value, ast.Yield) and id(st.value) not in inner:
+                    y = st.value
+                    st.value = ast.copy_location(ast.Call(
+                        func=ast.copy_location(ast.Attribute(value=ast.copy_location(ast.Name(id="yielded", ctx=ast.Load()), y), attr="append", ctx=ast.Load()), y),
+                        args=[ast.copy_location(ast.Call(func=ast.copy_location(ast.Name(id="__srcb_yield", ctx=ast.Load()), y), args=[y.value], keywords=[]), y)],
+                        keywords=[]), y)
+            ast.fix_missing_locations(f)
+        return f
+
+    def finish(self):
+        Fn.finish(self)
+        if self.isgen:
+            # a generator function never raises when called: its value is the list of the outcomes of its `yield`s; an exception
+            # before the first yield is the one-element list [Raise e] (py_gen_body).  No raising construct may follow a yield
+            # (the items yielded before it would be lost): loops that yield are effect-free, and nothing after a yield can raise.
+            acc = self.used_name("yielded")
+            for L in self.loops:
+                if any(cn == acc for part in (L.params if L.iswhile else L.params[0] + L.params[1]) for cn, _ in [part]) and L.outcome:
+                    bad(L.node, "a loop of a generator that yields and can raise")
+            self.no_effect_after_yield(self.ir, acc, False)
+            self.gen_outcome, self.outcome = self.outcome, False
+            self.type = unparen(coqty(self.kind, self.f))
+
+    def used_name(self, name):
+        return [cn for cn, x in self.used.items() if x == name][0]
+
+    def no_effect_after_yield(self, ir, acc, seen):
+        if seen and (ir[0] in ("raise", "bind", "next", "try", "trypass", "tryb") or (ir[0] in ("ret", "lret") and ir[1] != "@loop" and ir[3])):
+            bad(self.f, "a generator that can raise after a yield (the items yielded so far would be lost)")
+        if ir[0] == "join":                          # the branches come before the binding of the joined variables
+            self.no_effect_after_yield(ir[2], acc, seen)
+            return self.no_effect_after_yield(ir[3], acc, seen or bool(re.search(r"\b%s\b" % re.escape(acc), ir[1])))
+        if ir[0] in ("let", "bind") and re.search(r"\b%s\b" % re.escape(acc), ir[1]) and not (ir[0] == "let" and ir[2] == "[]"):
+            seen = True
+        for sub in self.children(ir):
+            self.no_effect_after_yield(sub, acc, seen)
+
+    def text(self):
+        if not self.isgen:
+            return Fn.text(self)
+        ps = "".join(" (%s : %s)" % (cn, unparen(coqty(ty, self.f))) for cn, ty in self.params)
+        body = ("py_gen_body\n    (%s)" % self.render(self.ir, "     ", True, False)) if self.gen_outcome else self.render(self.ir, "  ", False, False)
+        return "".join(L.text(self) + "\n" for L in self.loops) + "(* %s: %s (a generator: the outcomes of its yields), lines %d-%d *)\nDefinition %s %s : %s :=\n  %s.\n" % (
+            self.mod.fn, self.what(), self.f.lineno, self.f.end_lineno, self.cname, ps.strip(), self.type, body)
 
     def coqname(self, node, name):
         if name in SRCB_RESERVED:
@@ -2263,6 +2372,13 @@ class FnB(Fn):
             finally:
                 self.nohoist -= 1
             return ("bool", "(existsb (fun %s => %s) (chars %s))" % (cn, c, t))
+        if self.builtin_call(node, "set", env, 0):
+            return (("set", Cell()), "[]")                                   # set(): the empty set (element type found later)
+        if self.builtin_call(node, "sorted", env, 1):
+            ty, t = self.ex(node.args[0], env)                               # sorted(s) for a set / list of ints: ascending
+            if not ((is_set(ty) or is_list(ty)) and ty[1].find().t == "int"):
+                bad(node, "sorted() of %s without a key" % show(ty))
+            return (("list", Cell("int")), "(py_sorted_asc %s)" % t)
         if isinstance(f, ast.Name) and f.id == "__srcb_range" and not node.keywords and len(node.args) in (1, 2):
             a = [self.int_(x, env) for x in node.args]                       # (made by loop() from range(..) / _iter_range(..))
             return (("list", Cell("int")), "(py_zrange %s %s)" % (("0", a[0]) if len(a) == 1 else (a[0], a[1])))
@@ -2270,23 +2386,29 @@ class FnB(Fn):
             if node.keywords or node.lineno <= self.localfns[f.id][1]:
                 bad(node, "call of the local function %s with keywords, or before its definition" % f.id)
             return self.generated(node, None, self.localfns[f.id][0], "", [self.ex(x, env) for x in node.args])
-        if (isinstance(f, ast.Name) and f.id in ("IPAddress", "IPRange") and f.id not in env and not node.keywords
+        if (isinstance(f, ast.Name) and f.id in SRCB_CTOR_KIND and f.id not in env and not node.keywords
                 and self.mod.imports.get(f.id) == "netaddr.ip." + f.id):
             tys = [self.typeof(x, env) for x in node.args]
             if f.id == "IPAddress" and tys == ["addr"]:
                 return self.ex(node.args[0], env)                            # IPAddress(ip): the copy constructor = the same value
-            if f.id == "IPAddress" and tys == ["str"]:                       # IPAddress(s): the parser, hand model (SrcPreludeGlob)
-                return ("out", "addr", "(py_ipaddress_of_str %s)" % self.ex(node.args[0], env)[1])
-            if f.id == "IPRange" and tys == ["str", "str"]:
-                return ("out", "rng", "(py_iprange_of_strs %s %s)" % (self.ex(node.args[0], env)[1], self.ex(node.args[1], env)[1]))
+            key = (f.id,) + tuple(("%d" % const_int(x)) if (ty == "int" and const_int(x) is not None) else ty for x, ty in zip(node.args, tys))
+            sym = SRCB_CTOR.get(self.tr.out, {}).get(key)
+            if sym is not None:                                              # a parser on text: hand-model symbol / platform parameter
+                return ("out", SRCB_CTOR_KIND[f.id], "(%s)" % " ".join([sym] + [self.ex(x, env)[1] for x, ty in zip(node.args, tys) if ty == "str"]))
             if f.id == "IPRange" or "str" in tys or "addr" in tys:
                 bad(node, "%s(%s)" % (f.id, ", ".join(show(x) for x in tys)))
+        if (isinstance(f, ast.Name) and f.id == "_iter_next" and f.id not in env and len(node.args) == 1 and not node.keywords
+                and self.mod.imports.get("_iter_next") == "netaddr.compat._iter_next" and isinstance(node.args[0], ast.Call)):
+            ty, t = self.ex(node.args[0], env)                               # next() of a generator made right here (and dropped)
+            if not (is_list(ty) and ty[1].find().t == "oaddr"):
+                bad(node, "_iter_next of %s" % show(ty))
+            return ("out", "addr", "(py_gen_next %s)" % t)
         return None
 
     # ---- statements
     def assign(self, s, env, go):
         tgt = s.targets[0] if isinstance(s, ast.Assign) and len(s.targets) == 1 else None
-        if isinstance(tgt, ast.Tuple) and len(tgt.elts) == 2 and all(isinstance(x, ast.Name) and x.id != "_" for x in tgt.elts):
+        if isinstance(tgt, ast.Tuple) and len(tgt.elts) == 2 and all(isinstance(x, ast.Name) for x in tgt.elts):
             ty = self.typeof(s.value, env)
             if is_list(ty):                                                  # a, b = <list>: ValueError unless it has two elements
                 r = self.rhs(s.value, env)
@@ -2296,6 +2418,11 @@ class FnB(Fn):
                     bad(s, "unpacking of a list whose element type is not known")
                 names = []
                 for x in tgt.elts:
+                    if x.id == "_":
+                        env = dict(env)
+                        env.pop("_", None)
+                        names.append("_")
+                        continue
                     cn, env = self.bind_local(x, x.id, elem, env, s.value)
                     names.append(cn)
                 if r[0] == "out":
@@ -2303,6 +2430,50 @@ class FnB(Fn):
                     return self.wrap(pre, ("bind", h, r[2], ("bind", pattern(names), "(py_unpack2 %s)" % h, go(env))))
                 return self.wrap(pre, ("bind", pattern(names), "(py_unpack2 %s)" % r[1], go(env)))
         return Fn.assign(self, s, env, go)
+
+    @staticmethod
+    def yield_value(st):
+        """e of the statement `yield e` (rewritten by prepare to `yielded.append(__srcb_yield(e))`), else None"""
+        v = st.value if isinstance(st, ast.Expr) else None
+        if (isinstance(v, ast.Call) and dotted(v.func) == "yielded.append" and len(v.args) == 1 and isinstance(v.args[0], ast.Call)
+                and dotted(v.args[0].func) == "__srcb_yield"):
+            return v.args[0].args[0]
+        return None
+
+    def expr_stmt(self, s, env, go):
+        v = s.value
+        if (isinstance(v, ast.Call) and isinstance(v.func, ast.Attribute) and v.func.attr == "add" and isinstance(v.func.value, ast.Name)
+                and is_set(env.get(v.func.value.id, ("",))[0]) and len(v.args) == 1 and not v.keywords):
+            l = v.func.value.id                                          # s.add(e): nothing happens when an equal element is present
+            lty, lt = env[l]
+            ty, t = self.ex(v.args[0], env)
+            unify(s, ("set", Cell(ty)), lty, "added element")
+            pre = self.take_pre()
+            cn, env = self.bind_local(s, l, lty, env)
+            if self.tainted(v.args[0], env):
+                env["@taint"] = env["@taint"] | {l}
+            return self.wrap(pre, ("let", cn, "(py_set_add %s %s %s)" % (self.elem_eqb(s, lty), lt, t), go(env)))
+        if self.isgen and self.yield_value(s) is not None:               # yield e: the OUTCOME of e goes to the end of `yielded`
+            saved, self.pre = self.pre, []
+            try:
+                r = self.rhs(self.yield_value(s), env)
+                inner = self.pre
+            finally:
+                self.pre = saved
+            kind = r[1] if r[0] == "out" else r[0]
+            if kind != "addr":
+                bad(s, "yield of %s (only IPAddress objects)" % show(kind))
+            ir = self.wrap(inner, ("ret", kind, r[2] if r[0] == "out" else r[1], r[0] == "out"))
+            t = r[2] if (r[0] == "out" and not inner) else "(%s)" % self.render(ir, "      ", True)
+            lty, lt = env["yielded"]
+            unify(s, ("list", Cell("oaddr")), lty, "yielded item")
+            cn, env = self.bind_local(s, "yielded", lty, env)
+            return ("let", cn, "(%s ++ [%s])" % (lt, t), go(env))
+        if isinstance(v, ast.Call) and dotted(v.func) == "_iter_next":
+            r = self.rhs(v, env)                                             # _iter_next(g) for its exception only
+            pre = self.take_pre()
+            return self.wrap(pre, ("bind", "_", r[2], go(env)))
+        return Fn.expr_stmt(self, s, env, go)
 
     def block(self, stmts, env, k, after):
         if stmts and isinstance(stmts[0], ast.FunctionDef):
@@ -2445,9 +2616,75 @@ class FnB(Fn):
             s2 = mk(a, s.body, [mk(b, s.body, s.orelse)])
         return self.if_(s2, rest, env, k, after)
 
+    @staticmethod
+    def read_first(stmts, x):
+        """(may x be read before it is written when the statements run in this order?, is x written on every path through them?)
+        -- a conservative reading of structured code: loops may run zero times, try / with / unknown statements write nothing
+        and read whatever they mention, break / continue count as a read"""
+        loads = lambda n: any(isinstance(m, ast.Name) and m.id == x and isinstance(m.ctx, ast.Load) for m in ast.walk(n)) if n is not None else False
+        stores = lambda n: any(isinstance(m, ast.Name) and m.id == x and isinstance(m.ctx, ast.Store) for m in ast.walk(n))
+        for st in stmts:
+            if isinstance(st, (ast.Assign, ast.AugAssign, ast.Expr, ast.Pass)):
+                if loads(st) or (isinstance(st, ast.AugAssign) and stores(st.target)):
+                    return True, False
+                if isinstance(st, ast.Assign) and all(isinstance(t, (ast.Name, ast.Tuple)) for t in st.targets) and stores(st):
+                    return False, True
+            elif isinstance(st, (ast.Return, ast.Raise)):
+                return loads(st), True
+            elif isinstance(st, ast.If):
+                if loads(st.test):
+                    return True, False
+                (r1, w1), (r2, w2) = FnB.read_first(st.body, x), FnB.read_first(st.orelse, x)
+                if r1 or r2:
+                    return True, False
+                if w1 and w2:
+                    return False, True
+            elif isinstance(st, (ast.For, ast.While)):
+                if loads(st.iter if isinstance(st, ast.For) else st.test) or st.orelse:
+                    return True, False
+                if not (isinstance(st, ast.For) and stores(st.target)) and FnB.read_first(st.body, x)[0]:
+                    return True, False
+            elif loads(st) or isinstance(st, (ast.Break, ast.Continue)) or any(isinstance(m, (ast.Break, ast.Continue)) for m in ast.walk(st)):
+                return True, False
+        return False, False
+
     def loop(self, s, rest, env, k, after):
         """as Fn.loop; `for i in range(n)` / `range(a, b)` / `_iter_range(a, b)` whose variable IS read runs over the list
-        py_zrange a b (the bounds are evaluated once, before the loop)"""
+        py_zrange a b (the bounds are evaluated once, before the loop).  A loop variable that is mentioned after the loop but
+        is dead there (read_first: always written before it is read again) is renamed inside the loop (x -> x_for)."""
+        if (self.isgen and isinstance(s, ast.For) and isinstance(s.target, ast.Name) and not s.orelse and len(s.body) == 1
+                and isinstance(self.yield_value(s.body[0]), ast.Name)
+                and self.yield_value(s.body[0]).id == s.target.id and s.target.id not in env and "yielded" in env
+                and not any(isinstance(n, ast.Name) and n.id == s.target.id and isinstance(n.ctx, ast.Load)
+                            and not any(n is m for m in ast.walk(s)) for st in rest + after for n in ast.walk(st))):
+            ty, t = self.ex(s.iter, env)                     # for x in g: yield x -- every outcome of g goes to the end of `yielded`
+            pre = self.take_pre()
+            if ty == "net":
+                t = "(py_iter_net %s)" % t                   # iterating an IPNetwork (IPListMixin.__iter__): hand model
+            elif not (is_list(ty) and ty[1].find().t == "oaddr"):
+                bad(s, "`for x in e: yield x` over %s" % show(ty))
+            lty, lt = env["yielded"]
+            unify(s, ("list", Cell("oaddr")), lty, "yielded item")
+            cn, env = self.bind_local(s, "yielded", lty, env)
+            return self.wrap(pre, ("let", cn, "(%s ++ %s)" % (lt, t), self.block(rest, env, k, after)))
+        if (isinstance(s, ast.For) and isinstance(s.target, ast.Name) and id(s) not in self.renamed.values() and any(
+                isinstance(n, ast.Name) and n.id == s.target.id and isinstance(n.ctx, ast.Load)
+                and not any(n is m for st in s.body for m in ast.walk(st)) for st in rest + after if st is not s for n in ast.walk(st))):
+            x = s.target.id
+            if id(s) not in self.renamed:
+                if self.read_first([st for st in rest + after], x)[0] or any(
+                        isinstance(n, ast.Name) and n.id == x + "_for" for n in ast.walk(self.f)):
+                    bad(s, "loop variable %s read after the loop" % x)
+                import copy
+                s2 = copy.deepcopy(s)
+                for a, b in zip(ast.walk(s), ast.walk(s2)):
+                    if isinstance(a, (ast.For, ast.While)):
+                        self.loopno[id(b)] = self.loopno[id(a)]
+                    if isinstance(b, ast.Name) and b.id == x:
+                        b.id = x + "_for"
+                self.renamed[id(s)] = s2
+                self.renamed[("made", id(s2))] = id(s2)
+            return self.loop(self.renamed[id(s)], rest, env, k, after)
         if isinstance(s, ast.For) and isinstance(s.target, ast.Name) and isinstance(s.iter, ast.Call) and isinstance(s.iter.func, ast.Name):
             fname = s.iter.func.id
             isrange = (fname == "range" and self.builtin_call(s.iter, "range", env, len(s.iter.args))) or (
@@ -2735,7 +2972,8 @@ def generate():
         consts += [t.consts[c] for c in sorted(t.consts)] + ([UNIT_PREAMBLE[ofn]] if ofn in UNIT_PREAMBLE else [])
         text = HEAD % (fn + "".join(", " + f for _, f in UNIT_STRATEGY.get(ofn, ())), "", req + "".join(" Gen." + u[:-2] for u in uses)) + (
             "From Coq Require Import String Ascii.\n\n" if "Base.PyStr" in req else "") + (
-            "\n".join(consts) + "\n" if consts else "") + "\n".join(t.done[k].body_text for k in t.order) + ("\n" + fails if fails else "")
+            "\n".join(consts) + "\n" if consts else "") + "\n".join(t.done[k].body_text for k in t.order) + ("\n" + fails if fails else "") + (
+            UNIT_POSTAMBLE.get(ofn, ""))
         text.encode("ascii")
         out[ofn] = text
     return out
